@@ -679,6 +679,10 @@ class TypeNormalizer:
     @_aspect_storage.add
     def _norm_tuple(self, tp, origin, args):
         if origin is tuple:
+            if HAS_UNPACK and getattr(tp, "__unpacked__", False):
+                # ``*tuple[int, str]`` is another spelling of ``Unpack[tuple[int, str]]``
+                return _NormType(typing.Unpack, (self.normalize(tuple[args]), ), source=tp)
+
             if tp in (tuple, typing.Tuple):  # not subscribed values
                 return _NormType(
                     tuple,
